@@ -3,10 +3,12 @@
    translation, and the table checker that the correspondence run applies to every table of every serialized profile.
    and the per-thread frame / func / resource / string tables (Model/FrameTables.v).
    Marker payloads (Model/MarkerTable.v): the flat field-value vectors and their consumption at serialization time.
-   Not modelled (their theorems are absent, the run-time checker covers their tables): JS frames and frame flags, subcategories,
+   Categories and subcategories (Model/Categories.v): handles by handle and by value, the frame table's category / subcategory columns.
+   Not modelled (their theorems are absent, the run-time checker covers their tables): JS frames and frame flags,
    allocation samples, counter sample columns (C04 covers their ordering); see DESIGN.md 9. *)
-From SV Require Import Model.ProfileTables Proofs.ProfileTablesProofs Model.FrameTables Proofs.FrameTablesProofs Proofs.ThreadOrderProofs Model.MarkerTable Proofs.MarkerTableProofs.
-From Coq Require Import Permutation.
+From SV Require Import Model.ProfileTables Proofs.ProfileTablesProofs Model.FrameTables Proofs.FrameTablesProofs Proofs.ThreadOrderProofs Model.MarkerTable Proofs.MarkerTableProofs
+  Model.Categories Proofs.CategoriesProofs.
+From Coq Require Import Permutation Lia.
 
 (* interning: the returned handle is in range and gives the key back; earlier handles keep their meaning *)
 Theorem C03_intern :
@@ -45,8 +47,27 @@ Proof. exact wf_prefix_walk_terminates. Qed.
    frame -> func and native symbol, func -> name string, file-name string and resource, resource -> library and name string,
    native symbol -> library and name string *)
 Theorem C03_table_indices :
-  forall (nlibs : nat) (rs : list freq), Forall (req_ok nlibs) rs -> tt_wf nlibs (run_reqs rs).
+  forall (nlibs : nat) (rs : list (freq * (nat * nat))), Forall (fun r => req_ok nlibs (fst r)) rs -> tt_wf nlibs (run_reqs rs).
 Proof. exact run_reqs_wf. Qed.
+(* ... and the (category, subcategory) of every frame row is a subcategory handle some call was given *)
+Theorem C03_frame_subcategories :
+  forall (rs : list (freq * (nat * nat))) k, In k (tt_frames (run_reqs rs)) -> In (fk_sub k) (map snd rs).
+Proof. exact run_reqs_subs. Qed.
+
+(* categories and subcategories: for ANY sequence of handle_for_category / handle_for_subcategory calls and Category / Subcategory
+   values passed where a subcategory is expected (handles used after they were obtained; repeated and interleaved in any order), no
+   call fails and, in the final category table, every handle ever returned denotes the category name, colour and subcategory name
+   its call supplied; the table holds each (name, colour) once, each subcategory name once per category, "Other" first *)
+Theorem C03_category_handles :
+  forall (other gray : N) (ops : list cop), cops_ok 0 ops ->
+    exists l hs, crun other (cats_init other gray, []) ops = Some (l, hs) /\ length hs = length ops /\
+      (forall j h, nth_error hs j = Some h -> denotes l h (nth j (names_of other ops) (0, 0, 0)%N)) /\
+      cats_canonical l /\ wfc other l.
+Proof. exact cat_handles_denote. Qed.
+(* ... so the indices are in range: category < number of categories, subcategory < number of that category's subcategories *)
+Theorem C03_category_handles_in_range :
+  forall l h nm, denotes l h nm -> exists x, nth_error l (fst h) = Some x /\ fst h < length l /\ snd h < length (c_subs x).
+Proof. exact denotes_in_range. Qed.
 
 (* pid / tid strings are pairwise distinct under any reuse of numeric ids *)
 Theorem C03_ids_unique : forall ids : list N, NoDup (make_all_unique [] ids).
@@ -105,6 +126,9 @@ Print Assumptions C03_prefix_earlier_empty.
 Print Assumptions C03_stack_same_handle.
 Print Assumptions C03_finite_paths.
 Print Assumptions C03_table_indices.
+Print Assumptions C03_frame_subcategories.
+Print Assumptions C03_category_handles.
+Print Assumptions C03_category_handles_in_range.
 Print Assumptions C03_ids_unique.
 Print Assumptions C03_thread_refs.
 Print Assumptions C03_sort_permutes.
@@ -128,11 +152,12 @@ Example ex_c03 :
 Proof. vm_compute. repeat split. Qed.
 
 Example ex_c03_tables :
-  let t := run_reqs [FLabel 7; FNative 0 256 8 9; FString 5; FNativeSym 0 516 512 10 9; FNativeSym 0 520 512 10 9; FLabel 7;
+  let t := run_reqs (map (fun r => (r, (0, 0)))
+                    [FLabel 7; FNative 0 256 8 9; FString 5; FNativeSym 0 516 512 10 9; FNativeSym 0 520 512 10 9; FLabel 7;
                      (* a native symbol handle, then the same address again as an inlined frame (depth 1) with its own name, file and line;
                         a symbolicated frame whose address is in no library; a label frame with a source location *)
                      FNs 0 512 10; FSymbolicated (Some (0, 520%N)) 99 0 512 (Some 11%N) (Some 12%N) (Some 7%N) None 1 9;
-                     FSymbolicated None 13 0 512 None None None None 0 9; FLabelLoc 7 (Some 12%N) (Some 3%N) (Some 1%N)] in
+                     FSymbolicated None 13 0 512 None None None None 0 9; FLabelLoc 7 (Some 12%N) (Some 3%N) (Some 1%N)]) in
   (tt_strings t, tt_res_lib t, tt_res_name t, map fu_name (tt_funcs t), map fu_file (tt_funcs t), tt_func_res t, tt_frame_func t,
    map (fun k => match fk_native k with Some ni => Some (ni_rel ni, ni_ns ni, ni_depth ni) | None => None end) (tt_frames t),
    map fk_line (tt_frames t), tt_ns t, tt_ns_name t) =
@@ -148,3 +173,12 @@ Example ex_c03_markers :
   option_map (fun s => (m_svals s, m_nvals s, serialize_markers s)) (mrun m_init ops) =
     Some ([7; 3; 4; 5; 6], [42; 9], Some [[7]; [3; 4; 42]; []; [5; 6; 9]])%N.
 Proof. split; [cbn; repeat split; eexists; split; reflexivity|vm_compute; reflexivity]. Qed.
+
+(* categories: a category looked up again by value keeps its subcategories; the same label under two subcategories is two frames *)
+Example ex_c03_categories :
+  let ops := [CCat 5 2; CSub 0 6; CCat 5 2; CSubVal 5 2 7; CSubVal 8 2 6; CSub 0 6; CCat 5 3]%N in
+  cops_ok 0 ops /\
+  option_map (fun st => (map (fun x => (c_name x, c_color x, c_subs x)) (fst st), snd st)) (crun 1%N (cats_init 1 0, [])%N ops) =
+    Some ([(1, 0, [1]); (5, 2, [1; 6; 7]); (8, 2, [1; 6]); (5, 3, [1])]%N, [(1, 0); (1, 1); (1, 0); (1, 2); (2, 1); (1, 1); (3, 0)]) /\
+  map fk_sub (tt_frames (run_reqs [(FLabel 7, (1, 1)); (FLabel 7, (1, 2)); (FLabel 7, (1, 1))])) = [(1, 1); (1, 2)].
+Proof. split; [cbn; repeat split; lia|vm_compute; split; reflexivity]. Qed.
